@@ -53,6 +53,32 @@ def decorate(w, ops, rng, rename=0.5, ident=0.7, user=0.5, unname=0.06):
             _apply_keep(w, ops, ['dset', str(i), tok_of_s(USER_KEY), 's:' + tok_of_s(rng.choice(USER_POOL))])
 
 
+def spread(w, ops, rng, p=0.6):
+    """Move some definitions into 1-3 additional libraries, so that library-level dependency chains
+    (library -> library -> library) occur: the recursive settings of get_libraries / get_definitions
+    from library roots only show on such chains."""
+    if rng.random() > p:
+        return
+    nets = [i for i, o in enumerate(w.objs) if w.kind(o) == 'netlist']
+    if not nets:
+        return
+    n = nets[0]
+    new_libs = []
+    for k in range(rng.randint(1, 3)):
+        if _apply_keep(w, ops, ['create', 'libs', str(n), tok_of_s('xl%d' % k), '0', '0', '~']):
+            new_libs.append(len(w.objs) - 1)
+    if not new_libs:
+        return
+    defs = [i for i, o in enumerate(w.objs) if w.kind(o) == 'definition' and o.library is not None]
+    rng.shuffle(defs)
+    for d in defs[:max(1, (2 * len(defs)) // 3)]:
+        l = w.index[id(w.objs[d].library)]
+        l2 = rng.choice(new_libs)
+        if _apply_keep(w, ops, ['remove', 'defs', str(l), str(d)]):
+            if not _apply_keep(w, ops, ['add', 'defs', str(l2), str(d), '~']):
+                _apply_keep(w, ops, ['add', 'defs', str(l), str(d), '~'])
+
+
 def generated(rng, policy):
     """-> (World, ops). policy: 'DEFAULT' | 'EDIF'. Caller closes the world."""
     depth = rng.choice([1, 2, 2, 3])
@@ -67,6 +93,7 @@ def generated(rng, policy):
         if not _apply_keep(w, ops, op):
             w.close()
             raise RuntimeError('netgen op refused: %r' % (op,))
+    spread(w, ops, rng)
     decorate(w, ops, rng)
     refused_adds(w, ops, rng)
     return w, ops
@@ -94,6 +121,8 @@ def refused_adds(w, ops, rng, n=3):
             ops.append(op)
             if out != 'ok':
                 w.extra_patterns.append(idn)
+                w.refused_ops = getattr(w, 'refused_ops', {})
+                w.refused_ops[len(ops) - 1] = out
                 done += 1
 
 
